@@ -68,8 +68,7 @@ def insert_tree(
         )
 
         if (
-            new_tree.find_node(tree)
-            is not None  # In rare cases things fail (see simple-tar case study)
+            contains_tree(new_tree, tree)  # In rare cases things fail (see simple-tar)
             and new_tree.structural_hash() not in result_hashes
         ):
             result.append(new_tree)
@@ -120,6 +119,34 @@ def insert_tree(
         current_path = in_tree.next_path(current_path)
 
     return result
+
+
+def contains_tree(in_tree: DerivationTree, tree: DerivationTree) -> bool:
+    """
+    Returns True iff `in_tree` contains `tree`: the root of `tree` occurs in `in_tree`,
+    and wherever `tree` is expanded, `in_tree` has the same nodes below that position.
+    Open leaves of `tree` may have been replaced by any subtree of the same type.
+    Connecting trees retain the ID of the node they replace, but not its children;
+    thus, it does not suffice to look for the ID of the root of `tree`.
+    """
+
+    def embedded(sub_tree: DerivationTree, at: DerivationTree) -> bool:
+        if sub_tree.children is None:
+            return sub_tree.value == at.value
+
+        return (
+            sub_tree.id == at.id
+            and sub_tree.value == at.value
+            and at.children is not None
+            and len(sub_tree.children) == len(at.children)
+            and all(
+                embedded(child, at_child)
+                for child, at_child in zip(sub_tree.children, at.children)
+            )
+        )
+
+    path = in_tree.find_node(tree)
+    return path is not None and embedded(tree, in_tree.get_subtree(path))
 
 
 def compute_context_additions(
@@ -344,7 +371,10 @@ def insert_trees(
         tree: [
             path
             for path, subtree in into_tree.leaves()
-            if any(
+            # A nonterminal leaf with an empty list of children is expanded (to the
+            # empty string): only open leaves can take a tree.
+            if (subtree.children is None or not is_nonterminal(subtree.value))
+            and any(
                 subtree.value == insert_tree_subtree.value
                 or (
                     is_nonterminal(subtree.value)
